@@ -135,6 +135,61 @@ func checkC08(e *Env) {
 		}
 	})
 
+	// the same enumeration after a history of failed validations (typo'd tokens that resemble
+	// list words, prefixes, other lists' words): the lists must still be the canonical ones
+	afterHistory := 0
+	parallel(ref.NLang, e.Workers, func(lang int) {
+		r := rng.New(e.Seed, "C08-history-"+itoa(lang))
+		var ops []plan.Op
+		add := func(op plan.Op) { op.I = len(ops); ops = append(ops, op) }
+		for k := 0; k < 120; k++ {
+			w := e.Model.Words(r.Bytes(ref.EntSizes[k%5]), lang)
+			pos := r.Intn(len(w))
+			rs := []rune(w[pos])
+			switch k % 6 {
+			case 0:
+				w[pos] += "x"
+			case 1:
+				w[pos] = string(rs[:(len(rs)+1)/2]) + "q"
+			case 2:
+				w[pos] = e.Model.List[(lang+1)%ref.NLang][r.Intn(2048)]
+			case 3:
+				w[pos] = strings.ToUpper(w[pos]) + "z"
+			case 4:
+				w[pos] = w[pos] + w[(pos+1)%len(w)]
+			case 5:
+				w = w[:len(w)-1]
+			}
+			add(plan.Op{Fn: "chkval", L: int64(lang), S: hxs(strings.Join(w, " "))})
+		}
+		nh := len(ops)
+		for i := 0; i < 2048; i++ {
+			first := make([]int, 11)
+			for k := range first {
+				first[k] = r.Intn(2048)
+			}
+			first[0] = i
+			add(plan.Op{Fn: "enc", L: int64(lang), E: hx(entropyFromIndices(16, first, r.Intn(128)))})
+		}
+		res, died := e.RunProc(drv, ops, nil, 0)
+		if died != "" {
+			e.Violate(&Violation{What: "the process died during a history of validations followed by a list enumeration: " + oneLine(died, 300), Ops: ops[:min(len(res)+1, len(ops))]})
+			return
+		}
+		for i := 0; i < 2048; i++ {
+			r := &res[nh+i]
+			w := strings.Split(string(unhex(r.Out)), ref.Sep(lang))[0]
+			if r.Panic != "" || w != e.Model.List[lang][i] {
+				e.Violate(&Violation{What: fmt.Sprintf("after a history of failed validations in the same process, %s index %d emits %s, the canonical word is %s", ref.Names[lang], i, preview(w), preview(e.Model.List[lang][i])),
+					Ops: append(append([]plan.Op(nil), ops[:nh]...), ops[nh+i]), Expected: map[string]string{"word": e.Model.List[lang][i]}, Observed: r, Detail: "the last call emits the word; the preceding ones are the history"})
+				return
+			}
+		}
+		mu.Lock()
+		afterHistory += 2048
+		mu.Unlock()
+	})
+
 	// well-formedness of what the API emitted
 	py := e.Py()
 	complete := 0
@@ -207,7 +262,7 @@ func checkC08(e *Env) {
 	e.WriteEvidence("exploration", map[string]any{
 		"evaluations":                       stats.Ops,
 		"distinct_nontrivial":               dist.Len(),
-		"rule":                              "finite domain enumerated completely: for each of the 10 languages and each index 0..2047, the word the API emits at the first position of a 12-word sentence and at the last-but-one position of a 24-word sentence is compared byte-for-byte with the golden list; the 2048 emitted words per language are checked for distinctness, non-emptiness, absence of Unicode white space and NFKD stability (CPython); for each word four 24-word reference sentences containing it must be accepted and the same sentences with the word replaced by its list neighbour must get the reference decoder's verdict; the source files under internal/wordlist are parsed and compared literal by literal; non-trivial = every (language, index); distinct = (language, index) pairs observed through the API",
+		"rule":                              "finite domain enumerated completely: for each of the 10 languages and each index 0..2047, the word the API emits at the first position of a 12-word sentence and at the last-but-one position of a 24-word sentence is compared byte-for-byte with the golden list; the 2048 emitted words per language are checked for distinctness, non-emptiness, absence of Unicode white space and NFKD stability (CPython); for each word four 24-word reference sentences containing it must be accepted and the same sentences with the word replaced by its list neighbour must get the reference decoder's verdict; per language the enumeration is repeated in a process that first went through 120 failed validations (typo'd tokens resembling list words); the source files under internal/wordlist are parsed and compared literal by literal; non-trivial = every (language, index); distinct = (language, index) pairs observed through the API",
 		"samples":                           smp.List(),
 		"exhaustive":                        true,
 		"list_entries_observed_through_api": complete,
@@ -215,7 +270,8 @@ func checkC08(e *Env) {
 		"observations_by_kind":              kinds.Map(),
 		"min_accepting_sentences_per_word":  minAcc,
 		"source_literals_compared":          srcChecked,
-		"children":                          stats.Children,
+		"list_entries_observed_again_after_a_history_of_failed_validations": afterHistory,
+		"children": stats.Children,
 	}, []string{
 		"the golden lists frozen in /verif/golden are the canonical BIP39 lists: extracted once from the pinned commit; only the English SHA-256 could be tied to the published digest offline",
 		"CPython unicodedata for NFKD stability",
